@@ -164,8 +164,8 @@ func c06Input(c *core.Ctx, pkg *packages.Package) {
 		} else {
 			t := an.Table{G: g, From: g.EntryLoc(), MayOnly: true,
 				Atoms: []an.Atom{{Name: "parsed", Values: []string{"T", "F"}}, {Name: "keylen", Values: []string{"eq", "gt"}}, {Name: "codec", Values: []string{"T", "F"}}},
-				Binder: &an.Binder{Fn: fn, Re: []an.ReRole{an.RE(`^KeyValuePair\{\}\.Unmarshal\(p0\)$`, "UNMARSHAL"), an.RE(`^recv\.GetCodec\(.*\)$`, "CODEC")},
-					Eq: map[string]string{"UNMARSHAL|nil": "parsed", "CODEC|nil": "nocodec"}, Cmp: map[string]string{"len(KeyValuePair{}.Key)|0": "keylen"}},
+				Binder: &an.Binder{Fn: fn, Re: []an.ReRole{an.RE(`^(KeyValuePair\{\}|zero)\.Unmarshal\(p0\)$`, "UNMARSHAL"), an.RE(`^recv\.GetCodec\(.*\)$`, "CODEC"), an.RE(`^len\((KeyValuePair\{\}|zero)\.(Key|GetKey\(\))\)$`, "KEYLEN")},
+					Eq: map[string]string{"UNMARSHAL|nil": "parsed", "CODEC|nil": "nocodec"}, Cmp: map[string]string{"KEYLEN|0": "keylen"}},
 				Targets: []an.Loc{g.Locate(enq[0].Expr)}, Names: []string{"enqueueKeyUpdate"},
 				Want: func(r an.Row, _ int) an.Tri {
 					if r["parsed"] == "F" || r["keylen"] == "eq" {
@@ -312,7 +312,7 @@ func c06Input(c *core.Ctx, pkg *packages.Package) {
 			h, b, _ := g.LoopBlocks(loop)
 			t := an.Table{G: g, From: an.Loc{B: b, I: 0}, Opts: an.ExecOpts{Header: h, NoTrack: map[types.Object]bool{data: true}}, MayOnly: true,
 				Atoms: []an.Atom{{Name: "parsed", Values: []string{"T", "F"}}, {Name: "nocodec", Values: []string{"T", "F"}}},
-				Binder: &an.Binder{Fn: fn, Re: []an.ReRole{an.RE(`^KeyValuePair\{\}\.Unmarshal\(.*\)$`, "UNMARSHAL"), an.RE(`^recv\.GetCodec\(.*\)$`, "CODEC")},
+				Binder: &an.Binder{Fn: fn, Re: []an.ReRole{an.RE(`^(KeyValuePair\{\}|zero|[A-Za-z_]\w*)\.Unmarshal\(.*\)$`, "UNMARSHAL"), an.RE(`^recv\.GetCodec\(.*\)$`, "CODEC")},
 					Eq: map[string]string{"UNMARSHAL|nil": "parsed", "CODEC|nil": "nocodec"}},
 				Targets: []an.Loc{g.Locate(merges[0].Expr)},
 				Want:    func(r an.Row, _ int) an.Tri { return an.FromBool(r["parsed"] == "T" && r["nocodec"] == "F") }}
